@@ -98,3 +98,9 @@ package state_machines
 //@ orderaccept node.reconstructThresholdSignature#0 the order of the collected shares of one message only selects which t of them kyber combines; the threshold signature is the same for every choice (kyber, assumed)
 //@ orderaccept node.reconstructThresholdSignature#1 one reconstructed signature per message; consumers store them under (batch, message) keys, the order of the list is not used
 //@ orderaccept signature.BaseSignatureRepo).GetBatches#0 listing for the local API, not part of a round's state
+
+// the machines read no clock and draw no randomness: every time they use comes with the request, so the same
+// requests give the same transitions on every node and on every replay (one obligation per package)
+//@ nocall[C08.clock] fsm/fsm fsm/fsm_pool fsm/state_machines fsm/state_machines/internal fsm/state_machines/dkg_proposal_fsm
+//@   fsm/state_machines/signature_proposal_fsm fsm/state_machines/signing_proposal_fsm fsm/types/requests
+//@   client/services/fsmservice : time.Now time.Since time.Until math/rand. crypto/rand. uuid.New uuid.NewString os.Getenv os.Hostname
